@@ -7,7 +7,7 @@ Require Import BV.Model.Base BV.Model.SrcB BV.Model.Length BV.Model.Tag BV.Model
                BV.Model.Content BV.Model.OctStr BV.Model.Encode BV.Model.Prog.
 Require Import BV.Proofs.Bits BV.Proofs.SrcBP BV.Proofs.LengthP BV.Proofs.TagP BV.Proofs.ContentP BV.Proofs.OctGrammarP
                BV.Proofs.WinP BV.Proofs.TotalP BV.Proofs.DeltaP BV.Proofs.IntP BV.Proofs.IntEncP
-               BV.Proofs.EncodeP BV.Proofs.GrammarP BV.Proofs.EncGrammarP BV.Proofs.TypedP BV.Proofs.SchemaP.
+               BV.Proofs.EncodeP BV.Proofs.GrammarP BV.Proofs.EncGrammarP BV.Proofs.TypedP BV.Proofs.OidP BV.Proofs.SchemaP.
 Arguments N.add : simpl never. Arguments N.sub : simpl never.
 Arguments N.ltb : simpl never. Arguments N.leb : simpl never. Arguments N.eqb : simpl never.
 Arguments N.min : simpl never.
@@ -119,7 +119,9 @@ Proof.
 Qed.
 
 (* ---- the leaf laws in the accepting direction ---- *)
-Definition kind_ok (k : leafkind) : Prop := match k with LInt ty => ty < 10 | _ => True end.
+(* BIT STRING leaves are left out here: the schema encoder is restricted to the 999 data octets that
+   every mode reads back (SchemaP.lenc), while DER accepts longer ones; the leaf itself is C05_bitstring_canonical *)
+Definition kind_ok (k : leafkind) : Prop := match k with LInt ty => ty < 10 | LBits => False | _ => True end.
 Fixpoint kinds_ok (s : schema) : Prop :=
   match s with
   | SLeaf _ k => kind_ok k
@@ -132,7 +134,7 @@ Proof. cbn [kinds_ok]. induction fs as [|x r IH]; cbn [kinds_ok_l]; tauto. Qed.
 Lemma leaf_canon k v c : kind_ok k -> octets_ok c = true ->
   prim_decode (lop k Der) c = Ok v -> lenc k v = Some c.
 Proof.
-  destruct k as [ty| |]; cbn [lop kind_ok]; intros Hk Hok H.
+  destruct k as [ty| | | |]; cbn [lop kind_ok]; intros Hk Hok H; [| | | |contradiction].
   - rewrite prim_decode_map in H. destruct (prim_decode (int_accessor ty) c) as [x| | | |] eqn:E; try discriminate.
     injection H as <-. destruct (int_accessor_sound ty c x Hk Hok E) as (_ & _ & Hr).
     cbn [lenc]. replace (ty <? 10) with true by lia. rewrite Hr. cbn [andb]. f_equal.
@@ -141,6 +143,8 @@ Proof.
     injection H as <-. cbn [lenc]. f_equal. apply bool_der_canonical; assumption.
   - rewrite (prim_decode_map to_null (fun _ => VNull)) in H. rewrite to_null_spec in H.
     destruct c; [|discriminate]. injection H as <-. reflexivity.
+  - rewrite prim_decode_map, (oid_from_prim_spec c Hok) in H. destruct (oid_ok c) eqn:E; [|discriminate].
+    injection H as <-. cbn [lenc]. rewrite Hok, E. reflexivity.
 Qed.
 
 (* ---- soundness of the typed readers of a schema, DER ---- *)
